@@ -352,7 +352,10 @@ def _quantile_linear(sorted_vals, q):
     a, b = float(sorted_vals[lo]), float(sorted_vals[hi])
     if a == b:
         return a
-    return a + (b - a) * g
+    # same rounding as NumPy's linear interpolation (two-sided lerp), so that interval bounds agree to the
+    # last bit wherever the inputs do; bounds feed discontinuous tests (does a rectangle cover a point?)
+    d = b - a
+    return a + d * g if g < 0.5 else b - d * (1.0 - g)
 
 
 def ref_ci_1d(theta, theta_hat, alpha, method):
